@@ -32,6 +32,10 @@ ASSUMPTIONS = [
     "inner loop of socket_read_task is outside the model)",
 ]
 MODELLED_NOT_VERIFIED = [
+    "C10: the Lean reader model (readLoop / readLoopP) covers ONE connected stretch of a connection; what happens to the "
+    "receive buffer across disconnect / reconnect of the same connection object (disconnect() empties it, the long-lived "
+    "socket_read_task carries no bytes over), the real _process_message / _validate_integrity and frames longer than one "
+    "read are covered by the implementation-only oracle (live-connection and history scenarios), not by a theorem",
     "C10: Codec.decode and the inner loop of socket_read_task are hand-modelled (Model/Codec/Decode.lean, Reader.lean) "
     "and compared with the implementation on every run (canonical result incl. consumed length, raw bytes, container tree)",
 ]
@@ -680,13 +684,21 @@ def gen_live(rng):
     expected, kinds = [], []
     raising = 0
     alive = True
-    for i in range(rng.randint(2, 8)):
+    n_items = rng.randint(2, 8)
+    burst = rng.random() < 0.04
+    if burst:
+        n_items = rng.randint(40, 120)          # many frames in few reads
+    for i in range(n_items):
         kind = rng.choice(LIVE_KINDS)
+        if burst and kind not in ("valid", "corrupt"):
+            kind = "valid"
         if kind in ("seq_nonnumeric", "no49", "bad_compid", "seq_low") and rng.random() < 0.8:
             kind = "valid"
         kinds.append(kind)
         tag = "%s%d" % (kind[0].upper(), i)
         body = ["11=" + tag, "55=VOD.L", "54=1", "38=100"]
+        if rng.random() < 0.03:
+            body.append("58=" + "t" * rng.randint(3000, 9000))      # longer than one read(4096)
         if kind == "valid":
             frames.append(live_frame(seq, body))
             if alive:
@@ -759,6 +771,261 @@ def check_live(chunks, expected, disconnecting, desc=None):
                   "observed": str(obs)[:300]} for sig, what, obs in live_clauses(res, expected, disconnecting)]
 
 
+# ------------------------------------------------------------------ history: several connections on ONE connection object
+HIST_ENDINGS = ["logout_in_chunk", "integrity_in_chunk", "eof_mid_frame", "broken_transport", "heartbeat_timeout",
+                "own_disconnect", "own_logout", "clean_logout", "eof_clean"]
+
+
+def gen_history(rng):
+    """role + a list of episodes; every episode = (number of valid frames, how the connection ends, what the dead
+    connection leaves behind: a fraction of a frame and/or a whole frame, chunking seed)"""
+    role = rng.choice(["initiator", "acceptor"])
+    eps = []
+    for _ in range(rng.randint(2, 4)):
+        eps.append({"n_valid": rng.randint(0, 3), "ending": rng.choice(HIST_ENDINGS),
+                    "half": rng.choice([0.15, 0.4, 0.7, 0.97]), "whole_too": rng.random() < 0.3,
+                    "split": rng.random() < 0.4})
+    eps[-1]["ending"] = "none"          # the last connection stays up
+    eps[-1]["n_valid"] = rng.randint(1, 3)
+    return {"role": role, "episodes": eps}
+
+
+def history_run(hist):
+    """Play a history against ONE AsyncFIXClient / AsyncFIXServer object with its own long-lived socket_read_task and
+    heartbeat_timer_task (real code; transport, clock and sleep are stubs).  Returns per-episode observations."""
+    import asyncio
+    from unittest.mock import patch
+
+    from asyncfix import FTag
+    from asyncfix.connection import ConnectionState
+    from asyncfix.connection_client import AsyncFIXClient
+    from asyncfix.connection_server import AsyncFIXDummyServer as AsyncFIXServer
+    from asyncfix.journaler import Journaler
+    from asyncfix.message import FIXMessage
+
+    logging.disable(logging.CRITICAL)
+    real_sleep = asyncio.sleep
+    clock = [1000.0]
+    obs = {"episodes": [], "exceptions": 0, "error": None}
+    cur = {"delivered": [], "logons": 0}
+
+    async def fast_sleep(_d=0, *a, **k):
+        await real_sleep(0)
+
+    class _Rd:
+        def __init__(self):
+            self.q = asyncio.Queue()
+            self.waiting = False
+
+        def feed(self, b):
+            self.q.put_nowait(b)
+
+        async def read(self, n):
+            self.waiting = self.q.empty()
+            item = await self.q.get()
+            self.waiting = False
+            if isinstance(item, Exception):
+                raise item
+            return item
+
+    class _Wr:
+        def __init__(self, rd):
+            self.rd = rd
+            self.sent = []
+            self.closed = False
+
+        def write(self, b):
+            self.sent.append(bytes(b))
+
+        async def drain(self):
+            pass
+
+        def close(self):
+            if not self.closed:
+                self.closed = True
+                self.rd.feed(b"")           # EOF for whoever still reads this transport
+
+        async def wait_closed(self):
+            pass
+
+        def get_extra_info(self, *_):
+            return ("127.0.0.1", 1)
+
+    class _Lg:
+        def exception(self, *a, **k):
+            obs["exceptions"] += 1
+
+        def debug(self, *a, **k):
+            pass
+        info = warning = error = debug
+
+    def mk(base):
+        class App(base):
+            async def on_connect(self):
+                if hist["role"] == "initiator":
+                    await self.send_msg(FIXMessage("A", {FTag.EncryptMethod: 0, FTag.HeartBtInt: 30}))
+
+            async def on_logon(self, healthy):
+                cur["logons"] += 1
+
+            async def on_message(self, msg):
+                cur["delivered"].append(msg.get(FTag.ClOrdID, "?"))
+
+            async def on_disconnect(self):
+                pass
+
+            async def on_logout(self, msg):
+                pass
+
+            async def on_state_change(self, st):
+                pass
+        return App
+
+    transports = []
+
+    async def open_connection(host, port):
+        r = _Rd()
+        w = _Wr(r)
+        transports.append((r, w))
+        return r, w
+
+    async def main():
+        base = AsyncFIXClient if hist["role"] == "initiator" else AsyncFIXServer
+        conn = mk(base)(K.proto(), "CLI", "SRV", Journaler(), "localhost", 64444, 30)
+        conn.log = _Lg()
+
+        async def settle(rd=None, rounds=60):
+            for _ in range(rounds):
+                await real_sleep(0)
+                if rd is not None and rd.waiting and rd.q.empty() and _ > 3:
+                    break
+
+        def peer(mtype, fields, tag=None):
+            seq = conn._session.next_num_in      # the counterparty numbers its frames as this side expects them
+            return K.ref_frame(["35=" + mtype, "49=SRV", "56=CLI", "34=%d" % seq, LIVE_TIME] + list(fields))
+
+        try:
+            for ei, ep in enumerate(hist["episodes"]):
+                cur["delivered"], cur["logons"] = [], 0
+                # ---- connect
+                if hist["role"] == "initiator":
+                    if not conn._socket_reader:      # (the reader task reconnects by itself after 1.5 heartbeat periods)
+                        await conn.connect()
+                else:
+                    from asyncfix.connection import AsyncFIXConnection
+                    await AsyncFIXConnection.connect(conn)          # starts the reader / heartbeat tasks once
+                    r, w = await open_connection("", 0)
+                    await conn._handle_accept(r, w)
+                rd, wr = transports[-1]
+                await settle(rd)
+                rd.feed(peer("A", ["98=0", "108=30"]))
+                await settle(rd)
+                e = {"ending": ep["ending"], "state_after_logon": conn._connection_state.name, "expected": [], "old": []}
+                # ---- valid traffic of this connection
+                for i in range(ep["n_valid"]):
+                    tag = "N%d_%d" % (ei, i)
+                    f = peer("D", ["11=" + tag, "55=VOD.L", "54=1", "38=100"])
+                    e["expected"].append(tag)
+                    if ep["split"] and len(f) > 20:
+                        k = 7 + (ei * 13 + i * 29) % (len(f) - 14)
+                        rd.feed(f[:k])
+                        await settle(rd)
+                        rd.feed(f[k:])
+                    else:
+                        rd.feed(f)
+                    await settle(rd)
+                # ---- what the dying connection leaves in the pipe
+                old_tag = "OLD%d" % ei
+                nxt = peer("D", ["11=" + old_tag, "55=VOD.L", "54=1", "38=1"])
+                leftover = (nxt if ep["whole_too"] else b"") + nxt[: max(6, int(len(nxt) * ep["half"]))]
+                end = ep["ending"]
+                if end == "logout_in_chunk":
+                    rd.feed(peer("5", []) + leftover)
+                elif end == "integrity_in_chunk":
+                    bad = K.ref_frame(["35=D", "49=SOMEONE", "56=CLI", "34=%d" % conn._session.next_num_in, LIVE_TIME, "11=BAD"])
+                    rd.feed(bad + leftover)
+                elif end == "clean_logout":
+                    rd.feed(peer("5", []))
+                elif end == "eof_clean":
+                    rd.feed(b"")
+                elif end == "eof_mid_frame":
+                    rd.feed(leftover[-max(6, int(len(nxt) * ep["half"])):])
+                    await settle(rd)
+                    rd.feed(b"")
+                elif end == "broken_transport":
+                    rd.feed(leftover[-max(6, int(len(nxt) * ep["half"])):])
+                    await settle(rd)
+                    rd.feed(ConnectionResetError("reset by peer"))
+                elif end == "heartbeat_timeout":
+                    rd.feed(leftover[-max(6, int(len(nxt) * ep["half"])):])
+                    await settle(rd)
+                    clock[0] += 100.0
+                    await settle(None, 20)
+                elif end in ("own_disconnect", "own_logout"):
+                    rd.feed(leftover[-max(6, int(len(nxt) * ep["half"])):])
+                    await settle(rd)
+                    await conn.disconnect(ConnectionState.DISCONNECTED_WCONN_TODAY,
+                                          logout_message=("bye" if end == "own_logout" else None))
+                if end != "none":
+                    e["whole_old_frame_in_pipe"] = bool(ep["whole_too"]) and end in ("logout_in_chunk", "integrity_in_chunk")
+                    await settle(None, 25)
+                    if not wr.closed:
+                        wr.close()
+                    await settle(None, 10)
+                else:
+                    await settle(rd)
+                e.update({"state": conn._connection_state.name, "delivered": list(cur["delivered"]),
+                          "logons": cur["logons"], "buf": len(conn._msg_buffer)})
+                obs["episodes"].append(e)
+                clock[0] += 5.0
+        finally:
+            for t in (conn._aio_task_socket_read, conn._aio_task_heartbeat):
+                if t:
+                    t.cancel()
+            await real_sleep(0)
+
+    class _Clk:
+        @staticmethod
+        def time():
+            return clock[0]
+
+    with patch("asyncio.open_connection", open_connection), \
+            patch("asyncfix.connection.time", _Clk), \
+            patch("asyncio.sleep", fast_sleep):
+        asyncio.run(main())
+    return obs
+
+
+def history_clauses(hist, obs):
+    """'nothing from an earlier connection is ever delivered or prepended; every valid frame of the new connection is
+    delivered once'; yields (signature, what, observed)"""
+    for ei, e in enumerate(obs["episodes"]):
+        where = "connection #%d of an %s (previous one ended by %s)" % (
+            ei + 1, hist["role"], obs["episodes"][ei - 1]["ending"] if ei else "-")
+        if e["state_after_logon"] != "ACTIVE" or e["logons"] != 1:
+            yield ("C10-history-logon-not-delivered", "the counterparty's Logon on a new connection was not delivered "
+                   "(state %s, on_logon calls %d): %s" % (e["state_after_logon"], e["logons"], where), e)
+        if any(t.startswith("OLD") or t == "BAD" for t in e["delivered"]):
+            yield ("C10-history-stale-frame-delivered", "bytes that belong to a connection that is gone were delivered: " + where, e)
+        elif e["delivered"] != e["expected"]:
+            yield ("C10-history-valid-frame-not-delivered", "valid frames of the connection were not delivered exactly once: " + where, e)
+        if e["ending"] != "none" and e["state"] not in ("DISCONNECTED_BROKEN_CONN", "DISCONNECTED_WCONN_TODAY",
+                                                         "DISCONNECTED_NOCONN_TODAY"):
+            yield ("C10-history-not-disconnected", "the connection did not end (%s): %s" % (e["state"], where), e)
+        if e["ending"] != "none" and e["buf"] != 0:
+            yield ("C10-history-buffer-survives-disconnect", "bytes of the dead connection stay in the receive buffer: " + where, e)
+        if e["ending"] == "none" and e["buf"] != 0:
+            yield ("C10-history-buffer-not-drained", "receive buffer not empty after complete valid frames: " + where, e)
+
+
+def check_history(hist):
+    obs = history_run(hist)
+    fails = [{"signature": sig, "what": what, "input": {"kind": "history", "history": hist},
+              "expected": "every connection: Logon delivered, its valid frames once, nothing of the previous connection",
+              "observed": json.dumps(o)[:400]} for sig, what, o in history_clauses(hist, obs)]
+    return obs, fails
+
+
 # ------------------------------------------------------------------ branch classification (distribution)
 BRANCH_OF_ASSERT = [
     ("no fix header", "no-marker"), ("Minimum message", "lt3-fields"), ("protocol beginstring mismatch", "beginstring"),
@@ -815,7 +1082,7 @@ def build_inputs(ctx, rng, n_arb, n_mal, n_frames_edit, thorough):
                 items.append(("edit:%s+partial-next" % op, e + nxt[:9]))
     # every byte value at every structural position (BeginString, BodyLength, trailer)
     order = sorted(range(len(frames)), key=lambda i: len(frames[i]))
-    for fi in order[: (len(frames) if thorough else 3)]:
+    for fi in order[: (len(frames) if thorough else 2)]:
         f = frames[fi]
         for (op, pos, y), e in gen_structural_edits(f):
             items.append(("struct:%s" % op, e))
@@ -826,6 +1093,7 @@ def build_inputs(ctx, rng, n_arb, n_mal, n_frames_edit, thorough):
 
 def correspondence(ctx):
     logging.disable(logging.CRITICAL)
+    ctx.note("correspondence starts at %.1fs" % ctx.elapsed())
     rng = ctx.rng
     impl = K.Impl()
     drv = C.Driver()
@@ -880,13 +1148,13 @@ def correspondence(ctx):
     rd_items = [it for it in items if it[0].startswith(("corpus", "malformed"))]
     arb = [it for it in items if it[0] == "arbitrary"]
     edits = [it for it in items if it[0].startswith(("edit", "struct"))]
-    rd_items += rng.sample(arb, min(len(arb), ctx.n(2500, 25000)))
-    rd_items += rng.sample(edits, min(len(edits), ctx.n(2500, 25000)))
+    rd_items += rng.sample(arb, min(len(arb), ctx.n(1800, 25000)))
+    rd_items += rng.sample(edits, min(len(edits), ctx.n(1800, 25000)))
     v1, v2 = valid_frame(1), valid_frame(2, ["58=hello"])
     rd_cases = []
-    for lab, raw in rd_items:
+    for ri, (lab, raw) in enumerate(rd_items):
         stream = raw + v1 + v2
-        k = 2 if lab.startswith(("corpus", "malformed")) else 1
+        k = 2 if (lab.startswith(("corpus", "malformed")) and (ctx.tier == "thorough" or ri < 2500)) else 1
         for chunks in chunkings(rng, stream, k)[-k:] if k == 1 and rng.random() < 0.7 else chunkings(rng, stream, k):
             rd_cases.append((lab, chunks))
     reader_flags = {}
@@ -907,7 +1175,7 @@ def correspondence(ctx):
         samples.append({"input": {"feed": [c.hex() for c in chunks], "label": lab}, "model": K.run_reader(chunks, max_steps=MAX_DELIVERIES)[:160]})
 
     # --- reader whose processing step raises (buffer must be advanced before processing)
-    pcases = [gen_proc_stream(rng) for _ in range(ctx.n(3000, 30000))]
+    pcases = [gen_proc_stream(rng) for _ in range(ctx.n(2000, 30000))]
     pcases = [c for c in pcases if c]
     proc_exc = {}
     model = drv.batch(["codec.feedp " + " ".join(C.cp(c) for c in chunks) for chunks in pcases])
@@ -1041,6 +1309,19 @@ def oracle(ctx, disagreements, broken):
             stats["live_frame_kinds"][k] = stats["live_frame_kinds"].get(k, 0) + 1
         failures += fs
 
+    # 6 histories: several connections on one connection object, each ended a different way, then reconnect
+    stats["history_runs"] = 0
+    stats["history_endings"] = {}
+    stats["history_roles"] = {}
+    for _ in range(ctx.n(800, 8000) * (3 if broken else 1)):
+        hist = gen_history(rng)
+        obs, fs = check_history(hist)
+        stats["history_runs"] += 1
+        stats["history_roles"][hist["role"]] = stats["history_roles"].get(hist["role"], 0) + 1
+        for ep in hist["episodes"]:
+            stats["history_endings"][ep["ending"]] = stats["history_endings"].get(ep["ending"], 0) + 1
+        failures += fs
+
     ctx.note("oracle done at %.1fs" % ctx.elapsed())
     # one failure per (signature, input) is enough; keep the smallest input per signature first
     failures.sort(key=lambda f: (f["signature"], len(json.dumps(f["input"]))))
@@ -1057,6 +1338,8 @@ def replay(ctx, rp):
     inp = rp["input"]
     if inp["kind"] == "decode":
         fs = list(check_decode(impl, bytes.fromhex(inp["raw"])))
+    elif inp["kind"] == "history":
+        _, fs = check_history(inp["history"])
     elif inp["kind"] == "live":
         _, fs = check_live([bytes.fromhex(c) for c in inp["chunks"]], inp["expected"], inp["disconnecting"])
     else:
